@@ -12,6 +12,8 @@ if [ -d targets ]; then
   for f in targets/*.c; do
     [ -f "$f" ] || continue
     clang -O1 -g -pthread -o ".build/targets/$(basename "$f" .c)" "$f" -ldl
+    # (the live target also as a position-dependent executable)
+    [ "$(basename "$f")" = vtarget.c ] && clang -O1 -g -pthread -no-pie -fno-pie -o ".build/targets/vtarget_nopie" "$f" -ldl
   done
 fi
 echo setup ok
